@@ -390,6 +390,68 @@ def _program(arg):
                 fail('step_back', 'Module', 'chain!=walk', f'repeated step_back(all={fname}) from the root differs from the backward walk order')
         except Exception as e:
             fail('step', 'Module', 'raised', f'step chain (all={fname}) raised {e!r}')
+    # single steps from every node: step_fwd/step_back with and without recurse_self, and restricted by top=
+    for back in (False, True):
+        order = rec_pre(ra, back, [])
+        posn = {id(a): i for i, a in enumerate(order)}
+        size = {}
+        for a in reversed(order):
+            size[id(a)] = 1 + sum(size[id(c)] for c in kids_of.get(id(a), []))
+        api = 'step_back' if back else 'step_fwd'
+        for fname, flt in (('True', True), ('False', False)):
+            for a in (fwd if len(fwd) <= 60 else rng.sample(fwd, 60)):
+                try:
+                    step = a.f.step_back if back else a.f.step_fwd
+                    for rs in (True, False):
+                        j = posn[id(a)] + (1 if rs else size[id(a)])
+                        want = next((id(x) for x in order[j:] if passes(x, flt)), None)
+                        got = step(flt, rs)
+                        if (id(got.a) if got else None) != want:
+                            fail(api, a.__class__.__name__, 'single-step' if rs else 'single-step-norecurse',
+                                 f'{api}(all={fname}, recurse_self={rs}) from a {a.__class__.__name__} is not the next node of the walk order')
+                    if flt is True and size[id(a)] <= 40:
+                        sub = [id(x) for x in order[posn[id(a)] + 1:posn[id(a)] + size[id(a)]]]
+                        got, g = [], a.f
+                        while (g := (g.step_back if back else g.step_fwd)(True, top=a.f)) and len(got) <= len(sub):
+                            got.append(id(g.a))
+                        if got != sub:
+                            fail(api, a.__class__.__name__, 'top-restricted-chain', f'{api}(top=node) chain is not the walk order of the node\'s subtree')
+                except Exception as e:
+                    fail(api, a.__class__.__name__, 'raised', f'{api} raised {e!r}')
+    # walk(asts=[...]): the given nodes are walked as they are, in the given order (reversed with back), self_ ignored
+    BLOCK_FIELDS = ('body', 'orelse', 'finalbody', 'handlers', 'cases')
+    BLOCK_CLASSES = (ast.FunctionDef, ast.AsyncFunctionDef, ast.ClassDef, ast.For, ast.AsyncFor, ast.While, ast.If, ast.With,
+                     ast.AsyncWith, ast.Match, ast.ExceptHandler, ast.match_case)
+    try:
+        if [g for g in root.walk(True, asts=[])] != []:
+            fail('walk-asts', 'Module', 'empty-list', 'walk(asts=[]) yields nodes')
+        for a in (fwd if len(fwd) <= 30 else rng.sample(fwd, 30)):
+            ks = kids_of.get(id(a), [])
+            if len(ks) >= 2:
+                sel = ks[1:]
+                for back in (False, True):
+                    want = [id(x) for k in (reversed(sel) if back else sel) for x in rec_pre(k, back, [])]
+                    if [id(g.a) for g in a.f.walk(True, asts=sel, back=back)] != want:
+                        fail('walk-asts', a.__class__.__name__, 'order', f'walk(asts=children[1:], back={back}) is not the walk of these nodes in the given order')
+                want = [id(k) for k in sel]
+                if [id(g.a) for g in a.f.walk(True, asts=sel, recurse=False)] != want:
+                    fail('walk-asts', a.__class__.__name__, 'norecurse', 'walk(asts=children[1:], recurse=False) is not the list itself')
+    except Exception as e:
+        fail('walk-asts', 'Module', 'raised', f'walk(asts=...) raised {e!r}')
+    # last_header_child(True): the last child in walk order that is not part of a block field
+    for a in fwd:
+        try:
+            got = a.f.last_header_child(True)
+            want = None
+            if isinstance(a, BLOCK_CLASSES):
+                blk = {id(x) for fld in BLOCK_FIELDS for x in (getattr(a, fld, None) or []) if isinstance(x, ast.AST)}
+                hdr = [c for c in kids_of.get(id(a), []) if id(c) not in blk]
+                want = id(hdr[-1]) if hdr else None
+            if (id(got.a) if got else None) != want:
+                fail('last_header_child', a.__class__.__name__, 'not-last-in-walk-order',
+                     'last_header_child(True) is not the last child of the block header in walk order')
+        except Exception as e:
+            fail('last_header_child', a.__class__.__name__, 'raised', f'last_header_child raised {e!r}')
     # next/prev inverse, children vs walk(recurse=False), pfield consistency, paths
     paths_seen = {}
     for a in fwd:
@@ -436,6 +498,12 @@ def _program(arg):
                 fail('child_from_path', cls, 'roundtrip', 'root.child_from_path(root.child_path(n)) is not n')
             if root.child_from_path(root.child_path(f, True)) is not f:
                 fail('child_from_path', cls, 'roundtrip-str', 'string path round trip does not return the node')
+            if path and path[-1].idx is not None:
+                from fst.common import astfield
+                for bidx in (len(getattr(f.parent.a, path[-1].name)), 10 ** 6):      # first index past the end, and a far one
+                    bad = path[:-1] + [astfield(path[-1].name, bidx)]
+                    if root.child_from_path(bad) is not False or root.child_from_path(bad, last_valid=True) is not f.parent:
+                        fail('child_from_path', cls, 'invalid-path', 'an out-of-range path is not refused / last_valid does not return the last valid node')
         except Exception as e:
             fail('nav', cls, 'raised', f'navigation raised {e!r}')
     if oracle_only:
